@@ -85,6 +85,10 @@ MUTANTS = {
     'report_opened_before_validation': ('C20', {'report_written_on_failure'}, [
         (G3, "    # read the parameters that apply to the model\n", "    open(model.outputs.output_file, 'w').close()  # make sure the output location is writable before the long calculation\n    # read the parameters that apply to the model\n")],
         'a failing run leaves an (empty) report'),
+    'output_file_parameters_not_anchored_to_start_dir': ('C20', {'wrong_output_path', 'stray_file', 'exit_status'}, [
+        (OUT, "                        if not Path(ParameterReadIn.sValue).is_absolute() and default_output_path is not None:",
+         "                        if False and not Path(ParameterReadIn.sValue).is_absolute() and default_output_path is not None:")],
+        'relative HTML Output File lands in the package directory'),
     'cli_relative_output_resolved_after_chdir': ('C20', {'wrong_output_path', 'missing_json', 'stray_file'}, [
         (MAIN, "    sys.argv[2] = Path(parsed_args['output-file']).absolute()", "    sys.argv[2] = Path(parsed_args['output-file'])")], 'relative output lands in the package directory'),
     'duplicate_label_in_report': ('C10', {'order_dependent_parse', 'parse_mismatch'}, [
